@@ -18,7 +18,7 @@ ext="${demo##*.}"
 run_demo() {
   if [ "$ext" = "rs" ]; then
     cp "$demo" oxmpl/tests/zz_demo_$v.rs
-    cargo test -p oxmpl --offline --test zz_demo_$v > /tmp/confirm/$id-$v.demo.log 2>&1; rc=$?
+    feat=""; grep -q "verif" "$demo" && feat="--features verif"; cargo test -p oxmpl --offline $feat --test zz_demo_$v > /tmp/confirm/$id-$v.demo.log 2>&1; rc=$?
     rm -f oxmpl/tests/zz_demo_$v.rs
     return $rc
   else
